@@ -147,6 +147,9 @@ def ammonia_water_r3():
     h1 = o + np.array([0.757, 0.586, 0.0])
     h2 = o + np.array([-0.757, 0.586, 0.0])
     frac = np.vstack([[0.0, 0.0, 0.25], [0.08, 0.0, 0.22], o @ Mi, h1 @ Mi, h2 @ Mi])
+    # the water is listed in ANOTHER cell than the ammonia (by the lattice vector (1, -2, 3): the same crystal); in rhombohedral axes
+    # that is (0.2, 4.2, 5.2) cells from the origin - coordinates of that size are ordinary in files and nothing may treat them specially
+    frac[2:] += np.array([1.0, -2.0, 3.0])
     return xtal.make_crystal(148, "H", cell, ["N", "H", "O", "H", "H"], frac, labels=["N1", "H1", "O1", "H2", "H3"])
 
 
@@ -169,6 +172,7 @@ def disorder_p1():
     """P1, triclinic: substitutional disorder (Cu 0.6 / Au 0.4 on one position, 0.002 A apart: inside the 0.01 merge tolerance of
     unit_cell_atoms) next to a water; occupancies handed over as an ndarray, as the file readers do"""
     frac = np.array([[0.1, 0.2, 0.3], [0.1003, 0.2, 0.3], [0.5, 0.5, 0.5], [0.6, 0.55, 0.5], [0.42, 0.57, 0.5]])
+    frac[2:] += np.array([7.0, -6.0, 12.0])      # the water is listed many cells away from the metal site
     return xtal.make_crystal(1, "", (7.0, 8.0, 9.0, 80.0, 95.0, 100.0), ["Cu", "Au", "O", "H", "H"], frac,
                              labels=["Cu1", "Au1", "O1", "H1", "H2"], occupation=np.array([0.6, 0.4, 1.0, 1.0, 1.0]))
 
